@@ -1133,7 +1133,11 @@ class NLDFSettings(BaseSettings):
         if self.rho_mult == "one":
             rho_mult = 1
         elif self.rho_mult == "expnt":
-            rho_mult = _get_ueg_expnt(self.theta_params[0], self.theta_params[2], rho)
+            if self.sl_level == "MGGA":
+                tau_mul = self.theta_params[2]
+            else:
+                tau_mul = 0.0
+            rho_mult = _get_ueg_expnt(self.theta_params[0], tau_mul, rho)
         else:
             raise NotImplementedError
         return rho_mult
